@@ -25,7 +25,8 @@ map_concat(SourceContainer &&_source, Function const &_function, BinOp const &_b
       std::forward<SourceContainer>(_source),
       TargetContainer(),
       [&_function, &_bin_op](auto &&_ref, TargetContainer &&_state) {
-        return _bin_op(std::move(_state), _function(_ref));
+        // Keep the value category of the element: a move range yields rvalues.
+        return _bin_op(std::move(_state), _function(std::forward<decltype(_ref)>(_ref)));
       });
 }
 
